@@ -13,6 +13,10 @@ CLAIMED = {
         technique="deterministic simulation with crash injection: the real CLI runs in-process over syscall-level fault points; every recorded file-system operation (and 3 offsets inside every write) is enumerated as a kill point with crash-freeze, then the target file is compared with its old and new content",
         text="Per generated scenario the crash points are enumerated completely (every file-system system call of the command, plus inside each write), so for the sampled inputs the statement is decided exhaustively; inputs (sizes 28 B - 2 MiB, fmt and single-board render, output present/absent/longer/shorter) are sampled by seed.",
         note="Trusted: the std-library overlay that places the fault points at syscall wrappers; crash-freeze as a model of SIGKILL (cross-checked with strace-injected SIGKILL in the thorough tier when available); power-loss durability is out of scope (property says 'killed')."),
+    "C46": dict(engine="bundlesim", cat="exploration", ref="5.2",
+        technique="deterministic simulation in a synctest bubble: real imgbundler over a simulated HTTP transport and syscall-level file-system fault points; the seeded scheduler decides worker start/completion order, every I/O outcome, stalls, timeouts and caller cancellation; output and error are compared with a sequential reference bundler",
+        text="Seeded exploration of worker interleavings x failure subsets x inputs with exact replay. Small image counts (<=3) are visited often enough to cover all completion orders and failure subsets; larger ones (up to 40, beyond the 16-worker semaphore) are sampled. Sampling, not proof.",
+        note="Trusted: the reference bundler (eligibility = not data:, http(s) for remote), testing/synctest's fake clock, the std overlay. Worker goroutines run real code; only their park points are owned by the simulator, certified by the per-run determinism re-execution."),
 }
 
 PENDING = {
@@ -20,7 +24,6 @@ PENDING = {
  "C25": "simulation target per DESIGN.md §5.6 (pipesim); its check is still under construction and therefore not claimed yet",
  "C44": "simulation target per DESIGN.md §5.1 (watchsim); its check is still under construction and therefore not claimed yet",
  "C45": "simulation target per DESIGN.md §5.1 (watchsim); its check is still under construction and therefore not claimed yet",
- "C46": "simulation target per DESIGN.md §5.2 (bundlesim); its check is still under construction and therefore not claimed yet",
 }
 
 NA_COMMON = "pure function of its input: the anchored code is synchronous, single-goroutine, reads no clock and does no fallible I/O, so there is no schedule, time or fault for a simulator to own"
